@@ -328,6 +328,10 @@ func fdSelectSimple(git glyph.ID) int {
 }
 
 func normaliseAngle(x float64) float64 {
+	if x >= -180 && x < 180 {
+		// already normalised; the arithmetic below would add rounding noise
+		return x
+	}
 	y := math.Mod(x+180, 360)
 	if y < 0 {
 		y += 360
